@@ -356,7 +356,7 @@ func c17Waits(c *Ctx, exec *ssa.Function) {
 	// cancelled(ctx)); in a helper the context and the duration are parameters, mapped back to the call's arguments
 	type waitSite struct {
 		sel    *ssa.Select
-		ctx    ssa.Value             // the value that is the caller's context inside the site's function
+		ctx    ssa.Value                 // the value that is the caller's context inside the site's function
 		mapArg func(ssa.Value) ssa.Value // parameter of the helper -> argument in Execute
 	}
 	var sites []waitSite
@@ -408,6 +408,19 @@ func c17Waits(c *Ctx, exec *ssa.Function) {
 					}
 				case "time.After":
 					timer = ws.mapArg(oc.Call.Args[0])
+				}
+				continue
+			}
+			// <-t.C of a *time.Timer: the timer has to be made for this wait (time.NewTimer(d)); a timer taken from a
+			// pool, a field or a global may still carry the tick of an earlier, abandoned wait, and the wait is then not d
+			if u, ok := st.Chan.(*ssa.UnOp); ok && u.Op == token.MUL {
+				if fa, ok := u.X.(*ssa.FieldAddr); ok && ir.TypeStr(fa.X.Type()) == "*time.Timer" {
+					if nc, ok := fa.X.(*ssa.Call); ok && ir.CallName(nc) == "time.NewTimer" {
+						timer = ws.mapArg(nc.Call.Args[0])
+					} else {
+						c.R.Violate("R-cap", construct+": timer made for this wait", c.Pos(sel.Pos()),
+							"the wait receives from a *time.Timer that is not the result of time.NewTimer in this function (recycled or shared): a tick left by an earlier wait ends this one at once, so the k-th wait is not InitialBackoff x Factor^(k-1)")
+					}
 				}
 			}
 		}
@@ -991,6 +1004,22 @@ func c17ErrorText(c *Ctx, exec *ssa.Function) {
 			}
 			c.R.Check(okFmt, "R-status-in-text", construct, c.Pos(call.Pos()), "the status code is rendered in a form the classifier recognises",
 				sprintf("%s renders the HTTP status with format %q, which IsRetryableError does not recognise: 5xx/408/409/429 answers would not be retried", fname(fn), format))
+			// any other free-form text in the same message is matched by the classifier's substring patterns as well: only
+			// fixed text (constants, sentinel errors, the status code and its standard phrase) is harmless
+			freeIdx := -1
+			for i, e := range elems {
+				if e == nil || i == statusIdx || i == bodyIdx {
+					continue
+				}
+				if !c17FixedText(ir.Unwrap(e), 0) {
+					freeIdx = i
+				}
+			}
+			if bodyIdx < 0 && freeIdx >= 0 && !classifiedByCode(c, call) {
+				c.R.Violate("R-body-taint", construct, c.Pos(call.Pos()),
+					sprintf("%s renders run-time text (argument %d: %s) into the status error that IsRetryableError substring-matches: when that text contains something like \"503 \" (a request id, a method, a path) a non-retryable answer such as 403 is retried", fname(fn), freeIdx+1, c17Describe(ir.Unwrap(elems[freeIdx]))))
+				return
+			}
 			if bodyIdx >= 0 && classifiedByCode(c, call) {
 				c.R.Hold("R-body-taint", construct, c.Pos(call.Pos()), "the error is wrapped in a typed status error that the classifier judges by its code alone; its text is not inspected")
 			} else if bodyIdx >= 0 {
@@ -1002,6 +1031,51 @@ func c17ErrorText(c *Ctx, exec *ssa.Function) {
 		})
 	}
 	c.R.Min("R-status-in-text", 2)
+}
+
+// c17FixedText: the rendered value cannot vary with peer- or caller-supplied data: a constant, a package-level
+// sentinel, the response's status code (and conversions of it), or net/http's phrase for a status code.
+func c17FixedText(v ssa.Value, d int) bool {
+	if d > 6 || v == nil {
+		return false
+	}
+	switch x := v.(type) {
+	case *ssa.Const:
+		return true
+	case *ssa.UnOp:
+		if _, ok := x.X.(*ssa.Global); ok {
+			return true
+		}
+		return fieldLoadNamed(x, "StatusCode")
+	case *ssa.Convert:
+		return c17FixedText(x.X, d+1)
+	case *ssa.ChangeType:
+		return c17FixedText(x.X, d+1)
+	case *ssa.MakeInterface:
+		return c17FixedText(x.X, d+1)
+	case *ssa.Call:
+		if n := ir.CallName(x); n == "net/http.StatusText" || n == "strconv.Itoa" {
+			return len(x.Call.Args) == 1 && c17FixedText(x.Call.Args[0], d+1)
+		}
+	case *ssa.Phi:
+		for _, e := range x.Edges {
+			if !c17FixedText(e, d+1) {
+				return false
+			}
+		}
+		return true
+	}
+	return false
+}
+
+func c17Describe(v ssa.Value) string {
+	if call, ok := v.(*ssa.Call); ok {
+		return "result of " + ir.CallName(call)
+	}
+	if p := ir.Path(v); p != "" {
+		return p
+	}
+	return v.Name() + " " + ir.TypeStr(v.Type())
 }
 
 func derivesFromBody(v ssa.Value, d int) bool {
